@@ -30,6 +30,18 @@ fn label_text(l: &Label) -> String {
     }
 }
 
+fn leb(out: &mut Vec<u8>, mut n: u64) {
+    loop {
+        let b = (n & 0x7f) as u8;
+        n >>= 7;
+        if n == 0 {
+            out.push(b);
+            return;
+        }
+        out.push(b | 0x80);
+    }
+}
+
 fn parse_labels(s: &str) -> Option<Vec<Label>> {
     match sexp::parse(s)? {
         sexp::S::L(xs) => xs
@@ -270,6 +282,36 @@ pub fn run(ctx: &mut Ctx) {
         }
         if ls.len() >= 2 {
             ctx.emit(&format!("lbl.cmp\t{}\t{}", sexp::label(&ls[0]), sexp::label(&ls[1])), true);
+        }
+        // the same ids, in the order given, as the field list of a record / variant entry of a message header: the binary
+        // parser must accept exactly the strictly ascending lists (ids at both ends of the u32 range included)
+        for opcode in [0x6cu8, 0x6b] {
+            let mut b: Vec<u8> = b"DIDL\x01".to_vec();
+            b.push(opcode);
+            leb(&mut b, ls.len() as u64);
+            for l in &ls {
+                leb(&mut b, l.get_id() as u64);
+                b.push(0x7f);
+            }
+            b.extend_from_slice(&[0x01, 0x00]);
+            ctx.emit(&format!("wire.header\t{}", sexp::hx(&b)), ls.len() >= 2);
+        }
+    }
+    // boundary ids, pairwise: equal, ascending, descending — at the top and the bottom of the range
+    let edge: [u32; 6] = [0, 1, 2147483648, 4294967293, 4294967294, 4294967295];
+    for a in edge {
+        for c in edge {
+            for opcode in [0x6cu8, 0x6b] {
+                let mut b: Vec<u8> = b"DIDL\x01".to_vec();
+                b.push(opcode);
+                leb(&mut b, 2);
+                for id in [a, c] {
+                    leb(&mut b, id as u64);
+                    b.push(0x7f);
+                }
+                b.extend_from_slice(&[0x01, 0x00]);
+                ctx.emit(&format!("wire.header\t{}", sexp::hx(&b)), true);
+            }
         }
     }
     for (a, b) in &cols {
